@@ -263,7 +263,8 @@ func (ctx drawContext) drawStackingContext(stackingContext StackingContext) {
 		// Point 2
 		if bo.BlockT.IsInstance(box_) || bo.MarginT.IsInstance(box_) ||
 			bo.InlineBlockT.IsInstance(box_) || bo.TableCellT.IsInstance(box_) ||
-			bo.FlexContainerT.IsInstance(box_) || bo.ReplacedT.IsInstance(box_) {
+			bo.FlexContainerT.IsInstance(box_) || bo.GridContainerT.IsInstance(box_) ||
+			bo.ReplacedT.IsInstance(box_) {
 			// The canvas background was removed by layoutBackgrounds
 			ctx.drawBackgroundDefaut(box_.Box().Background)
 			ctx.drawBorder(box_)
